@@ -11,7 +11,7 @@ def swarm(rng):
     cfg["p_hostile"] = rng.choice([0.3, 0.5, 0.7])
     cfg["focus"] = rng.choice(["mixed", "struct", "refs", "values"])
     cfg["n_steps"] = rng.choice([10, 16, 24])
-    cfg["relative_outside"] = rng.random() < 0.0
+    cfg["relative_outside"] = rng.random() < 0.3
     if rng.random() < 0.35:
         # wide and deep inheritance between top-level spaces: rejections that arise two or more levels below the edited space
         cfg.update({"tops": ["A", "B", "C", "D", "E", "F"], "n_spaces": 6, "max_depth": 1, "p_bases": 0.9, "focus": "struct",
